@@ -592,7 +592,10 @@ class SumPowerLaplaceKernel(Kernel):
         def forward_func(z):
             # compute \sum_j f(z_j)
             # IMPORTANT: use the function argument `z` so autograd can differentiate wrt it
-            diffs = torch.abs(xm[:, None, :] - z[None, :, :]).pow(self.exponent)
+            # coordinates where a center and the query coincide are masked before the power is taken: for exponent < 1 the derivative of |u|^q at u = 0
+            # is infinite and autograd returns nan (inf * 0); such a coordinate contributes zero, as in the other kernels
+            abs_diffs = torch.abs(xm[:, None, :] - z[None, :, :])
+            diffs = torch.where(abs_diffs >= self.eps, abs_diffs.clamp_min(self.eps).pow(self.exponent), torch.zeros_like(abs_diffs))
             diffs = torch.exp((-1. / (self.bandwidth ** self.exponent)) * diffs)
             sum = (1.0 - self.const_mix) * (diffs.sum(dim=-1) / x.shape[-1]) + self.const_mix
             sum = sum ** self.power
